@@ -149,6 +149,18 @@ CLAIMED.update({
     },
 })
 
+CLAIMED.update({
+    "C40": {
+        "technique": "static analysis: exhaustive path enumeration over MIR; entry/size accounting balance per path; guard dominance of validity checks; call-graph reachability of invalidation",
+        "level": ("Static, all paths of DefaultCacheState::{put,remove,evict_entries,clear} (+ who-may-write memory_used): each entry entering "
+                  "the LRU queue is charged key+value size, each leaving entry is credited both sizes, usage growth and limit reduction reach "
+                  "evict_entries; both is_valid_for implementations can return true only through the size and last_modified comparisons; "
+                  "both consumers touch the cached payload only behind is_valid_for == true; invalidate_caches drops the table from both "
+                  "caches and is reached from both deregistration paths; expired entries are never reported as hits. LRU order and TTL "
+                  "arithmetic are not decided."),
+    },
+})
+
 NA = {
     'C01': 'whole-pipeline value semantics over all queries x all table contents: functional verification, no clause visible in code shape beyond C03/C05/C47',
     'C08': 'ordering/permutation of runtime values (loser tree, cursors, heaps are value algorithms); no structural clause',
